@@ -25,6 +25,13 @@ def failing_edits(live, rng):
             continue
         out.append(("capacity-ram", {"op": "setq", "kind": "servers", "name": sv, "param": "base_ram_consumption", "value": {"m": 1e7, "u": "GB"}}))
         out.append(("capacity-compute", {"op": "setq", "kind": "servers", "name": sv, "param": "base_compute_consumption", "value": {"m": 1e6, "u": "cpu_core"}}))
+        # the same refusals reached from the other side: the capacity itself shrunk below the base consumption
+        if s["base_compute_consumption"]["m"] > 0:
+            out.append(("capacity-by-compute", {"op": "setq", "kind": "servers", "name": sv, "param": "compute",
+                                                "value": {"m": s["base_compute_consumption"]["m"] * 0.5, "u": s["base_compute_consumption"]["u"]}}))
+        if s["base_ram_consumption"]["m"] > 0:
+            out.append(("capacity-by-ram", {"op": "setq", "kind": "servers", "name": sv, "param": "ram",
+                                            "value": {"m": s["base_ram_consumption"]["m"] * 0.5, "u": s["base_ram_consumption"]["u"]}}))
         if s["server_type"] == "on-premise":
             out.append(("fixed-instances-server", {"op": "setq", "kind": "servers", "name": sv, "param": "fixed_nb_of_instances",
                                                    "value": {"m": 1e-3, "u": "dimensionless"}}))
